@@ -181,3 +181,121 @@ example : SpawnsFresh lostAckSchedule := by
       | (simp only [Act.spawn.injEq] at h; obtain ⟨_, rfl⟩ := h; rfl)
 
 end WalrusVerif.Plane
+
+namespace WalrusVerif.Plane
+open WalrusVerif
+
+/-! ### `drain` (used by the schedules of the correspondence runs) is a sequence of scheduler actions, so the
+theorems about `runActs` cover it -/
+
+theorem runActs_append (w : World) (a b : List Act) : runActs w (a ++ b) = runActs (runActs w a) b := by
+  simp [runActs, List.foldl_append]
+
+theorem applyAllOn_acts (w : World) (n fuel : Nat) : ∃ acts, applyAllOn w n fuel = runActs w acts ∧ SpawnsFresh acts := by
+  induction fuel generalizing w with
+  | zero => exact ⟨[], rfl, fun a h => by simp at h⟩
+  | succ k ih =>
+    unfold applyAllOn
+    split
+    · rename_i w' _ heq
+      obtain ⟨acts, h1, h2⟩ := ih w'
+      refine ⟨.apply n :: acts, ?_, ?_⟩
+      · rw [h1]
+        show runActs w' acts = runActs (act w (.apply n)) acts
+        have : act w (.apply n) = w' := by show (applyNext w n).1 = w'; rw [heq]
+        rw [this]
+      · intro a ha tid t he
+        simp only [List.mem_cons] at ha
+        rcases ha with ha | ha
+        · subst ha; cases he
+        · exact h2 a ha tid t he
+    · rename_i w' heq
+      refine ⟨[.apply n], ?_, fun a ha tid t he => by simp only [List.mem_singleton] at ha; subst ha; cases he⟩
+      show w' = act w (.apply n)
+      show w' = (applyNext w n).1
+      rw [heq]
+
+theorem applyAll_acts (w : World) : ∃ acts, applyAll w = runActs w acts ∧ SpawnsFresh acts := by
+  unfold applyAll
+  have : ∀ (l : List Nat) (w : World), ∃ acts,
+      l.foldl (fun w n => applyAllOn w n (w.log.length + 1)) w = runActs w acts ∧ SpawnsFresh acts := by
+    intro l
+    induction l with
+    | nil => intro w; exact ⟨[], rfl, fun a h => by simp at h⟩
+    | cons n r ih =>
+      intro w
+      obtain ⟨a1, h1, s1⟩ := applyAllOn_acts w n (w.log.length + 1)
+      obtain ⟨a2, h2, s2⟩ := ih (applyAllOn w n (w.log.length + 1))
+      refine ⟨a1 ++ a2, ?_, ?_⟩
+      · simp only [List.foldl_cons]; rw [h2, h1, runActs_append]
+      · intro a ha; rw [List.mem_append] at ha; rcases ha with ha | ha
+        · exact s1 a ha
+        · exact s2 a ha
+  exact this _ w
+
+theorem stepsFold_acts (tids : List Nat) (w : World) (acc : List (Nat × StepOut)) :
+    (tids.foldl (fun (acc : World × List (Nat × StepOut)) tid =>
+        ((stepTask acc.1 tid).1, acc.2 ++ [(tid, (stepTask acc.1 tid).2)])) (w, acc)).1 =
+      runActs w (tids.map Act.step) := by
+  induction tids generalizing w acc with
+  | nil => rfl
+  | cons t r ih => simp only [List.foldl_cons, List.map_cons]; rw [ih]; rfl
+
+theorem drainRounds_acts (fuel : Nat) (w : World) : ∃ acts, (drainRounds w fuel).1 = runActs w acts ∧ SpawnsFresh acts := by
+  induction fuel generalizing w with
+  | zero =>
+    unfold drainRounds
+    exact applyAll_acts w
+  | succ k ih =>
+    unfold drainRounds
+    obtain ⟨a1, h1, s1⟩ := applyAll_acts w
+    simp only
+    split
+    · obtain ⟨a2, h2, s2⟩ := applyAll_acts (applyAll w)
+      refine ⟨a1 ++ a2, by rw [runActs_append, ← h1, ← h2], ?_⟩
+      intro a ha; rw [List.mem_append] at ha; rcases ha with ha | ha
+      · exact s1 a ha
+      · exact s2 a ha
+    · rename_i hne
+      -- the steps of this round, as actions
+      generalize htids : (((List.filter (fun (p : Nat × Task) => isForeground p.2) (applyAll w).tasks).map (·.1)).toArray.qsort (· < ·)).toList = tids
+      have hsteps : ∀ (acc : List (Nat × StepOut)),
+          (tids.foldl (fun (acc : World × List (Nat × StepOut)) tid =>
+            let (w1, o) := stepTask acc.1 tid
+            (w1, acc.2 ++ [(tid, o)])) (applyAll w, acc)).1 = runActs (applyAll w) (tids.map Act.step) :=
+        fun acc => stepsFold_acts tids (applyAll w) acc
+      have sfresh : SpawnsFresh (tids.map Act.step) := by
+        intro a ha tid t he
+        rw [List.mem_map] at ha
+        obtain ⟨x, _, hx⟩ := ha
+        rw [← hx] at he; cases he
+      split
+      · obtain ⟨a2, h2, s2⟩ := applyAll_acts
+          (tids.foldl (fun (acc : World × List (Nat × StepOut)) tid =>
+            let (w1, o) := stepTask acc.1 tid
+            (w1, acc.2 ++ [(tid, o)])) (applyAll w, [])).1
+        refine ⟨a1 ++ (tids.map Act.step ++ a2), ?_, ?_⟩
+        · rw [runActs_append, runActs_append, ← h1, ← hsteps []]; exact h2
+        · intro a ha
+          simp only [List.mem_append] at ha
+          rcases ha with ha | ha | ha
+          · exact s1 a ha
+          · exact sfresh a ha
+          · exact s2 a ha
+      · obtain ⟨a2, h2, s2⟩ := ih
+          (tids.foldl (fun (acc : World × List (Nat × StepOut)) tid =>
+            let (w1, o) := stepTask acc.1 tid
+            (w1, acc.2 ++ [(tid, o)])) (applyAll w, [])).1
+        refine ⟨a1 ++ (tids.map Act.step ++ a2), ?_, ?_⟩
+        · rw [runActs_append, runActs_append, ← h1, ← hsteps []]; exact h2
+        · intro a ha
+          simp only [List.mem_append] at ha
+          rcases ha with ha | ha | ha
+          · exact s1 a ha
+          · exact sfresh a ha
+          · exact s2 a ha
+
+/-- `drain` adds nothing to the scheduler's vocabulary: it is some sequence of `apply` and `step` actions -/
+theorem drain_is_acts (w : World) : ∃ acts, (drain w).1 = runActs w acts ∧ SpawnsFresh acts := drainRounds_acts 400 w
+
+end WalrusVerif.Plane
